@@ -476,6 +476,34 @@ func (d *deepView) packedSeqArray(buf dval, n int64, depth int) ([]bseg, bool) {
 	if !ok {
 		return nil, false
 	}
+	// the array variable assigned as a whole (ts := encode(x)): the value assigned
+	if a, isA := buf.v.(*ssa.Alloc); isA {
+		var whole []storeAt
+		d.eachStoreTo(a, buf.fr, func(st *ssa.Store, f *frame) {
+			// written back to itself at a return (named results)
+			if lu, isLd := st.Val.(*ssa.UnOp); isLd && lu.Op == token.MUL && lu.X == ssa.Value(a) {
+				return
+			}
+			whole = append(whole, storeAt{st, f})
+		})
+		if len(whole) > 0 {
+			if len(whole) != 1 || len(segs) != 0 || depth > 12 {
+				return nil, false
+			}
+			r := d.resolve(whole[0].st.Val, whole[0].fr)
+			switch y := r.v.(type) {
+			case *ssa.Const:
+				return []bseg{{kind: "zero", width: constAffine(n)}}, true
+			case *ssa.UnOp:
+				if src, isSrc := y.X.(*ssa.Alloc); isSrc && y.Op == token.MUL && !(src == a && r.fr == buf.fr) {
+					return d.packedSeqArray(dval{src, r.fr}, n, depth+1)
+				}
+			case *ssa.Call:
+				return nil, false
+			}
+			return []bseg{{kind: "bytes", v: r, width: constAffine(n)}}, true
+		}
+	}
 	if len(segs) == 0 {
 		return []bseg{{kind: "zero", width: constAffine(n)}}, true
 	}
